@@ -41,6 +41,8 @@ enum Probe {
     Tone { ch: usize, fine: u8, coarse: u8 },
     /// noise divider and LFSR sequence
     Noise { r6: u8 },
+    /// noise period rewritten (alternating between two values every `gap` ticks) while the divider runs
+    NoiseSweep { p1: u8, p2: u8, gap: u32 },
     /// envelope level per step
     Env { r13: u8, ep: u16 },
     /// envelope period rewritten while the envelope runs
@@ -98,6 +100,7 @@ impl Probe {
             Probe::Raw { ym, mode, ops } => format!("raw ym={} mode={} ops={}", *ym as u8, mode, ops_text(ops)),
             Probe::Tone { ch, fine, coarse } => format!("tone ch={} fine={} coarse={}", ch, fine, coarse),
             Probe::Noise { r6 } => format!("noise r6={}", r6),
+            Probe::NoiseSweep { p1, p2, gap } => format!("noisesweep p1={} p2={} gap={}", p1, p2, gap),
             Probe::Env { r13, ep } => format!("env r13={} ep={}", r13, ep),
             Probe::EnvRetime { shape, ep0, run, ep1 } => format!("envretime shape={} ep0={} run={} ep1={}", shape, ep0, run, ep1),
             Probe::Gate { ym, mode, r7, vols } => {
@@ -135,6 +138,7 @@ impl Probe {
             "raw" => Probe::Raw { ym: b("ym")?, mode: n("mode")? as usize, ops: parse_ops(kv.get("ops")?) },
             "tone" => Probe::Tone { ch: n("ch")? as usize, fine: n("fine")? as u8, coarse: n("coarse")? as u8 },
             "noise" => Probe::Noise { r6: n("r6")? as u8 },
+            "noisesweep" => Probe::NoiseSweep { p1: n("p1")? as u8, p2: n("p2")? as u8, gap: n("gap")? as u32 },
             "env" => Probe::Env { r13: n("r13")? as u8, ep: n("ep")? as u16 },
             "envretime" => Probe::EnvRetime { shape: n("shape")? as u8, ep0: n("ep0")? as u16, run: n("run")? as u32, ep1: n("ep1")? as u16 },
             "gate" => Probe::Gate {
@@ -528,6 +532,53 @@ fn probe_noise(model: &mut Model, r6: u8, rep: Option<&mut Report>) -> Option<Di
                 format!("{:#x}", want),
             ));
         }
+    }
+    None
+}
+
+/// The noise generator is clocked at f/(16*NP) whatever the program does to R6 meanwhile: with the period
+/// alternating between two values the LFSR keeps stepping at a rate between the two rates.
+fn probe_noise_sweep(model: &mut Model, p1: u8, p2: u8, gap: u32, rep: Option<&mut Report>) -> Option<Disagreement> {
+    let w1 = usize::from_str_radix(&model.ask(&format!("spec noise {:x}", p1)), 16).unwrap();
+    let w2 = usize::from_str_radix(&model.ask(&format!("spec noise {:x}", p2)), 16).unwrap();
+    let (lo, hi) = (w1.min(w2), w1.max(w2));
+    let mut ay = mk(false, 0, 44100);
+    ay.write_register(6, p1);
+    let total = hi * 60;
+    let mut steps = 0usize;
+    let mut last: Option<usize> = None;
+    let mut t = 0usize;
+    let mut k = 0usize;
+    while t < total {
+        ay.write_register(6, if k % 2 == 0 { p2 } else { p1 });
+        k += 1;
+        let vs = match ticks_real(&mut ay, gap as usize) {
+            Ok(v) => v,
+            Err(e) => return Some(dis(Kind::SpecViolated, "C18/panic", "update_mixer panicked", e, "no panic")),
+        };
+        for v in vs {
+            if let Some(l) = last {
+                if l != v.noise {
+                    steps += 1;
+                }
+            }
+            last = Some(v.noise);
+            t += 1;
+        }
+    }
+    if let Some(r) = rep {
+        r.eval();
+        r.class(format!("noise sweep np={}/{} gap-class={}", p1 & 0x1F, p2 & 0x1F, if (gap as usize) < lo { "shorter than both periods" } else if (gap as usize) < hi { "between" } else { "longer" }));
+    }
+    let (min_steps, max_steps) = ((t / hi).saturating_sub(2), t / lo + 2);
+    if steps < min_steps || steps > max_steps {
+        return Some(dis(
+            Kind::SpecViolated,
+            "C18/noise.clock.retuned",
+            format!("R6 alternating between {:#x} and {:#x} every {} ticks for {} ticks: LFSR steps", p1, p2, gap, t),
+            format!("{}", steps),
+            format!("{}..{} (one step every {}..{} ticks)", min_steps, max_steps, lo, hi),
+        ));
     }
     None
 }
@@ -1216,6 +1267,7 @@ fn run_probe(model: &mut Model, p: &Probe, rep: Option<&mut Report>) -> Option<D
         Probe::Raw { ym, mode, ops } => probe_raw(model, *ym, *mode, ops, rep),
         Probe::Tone { ch, fine, coarse } => probe_tone(model, *ch, *fine, *coarse, rep),
         Probe::Noise { r6 } => probe_noise(model, *r6, rep),
+        Probe::NoiseSweep { p1, p2, gap } => probe_noise_sweep(model, *p1, *p2, *gap, rep),
         Probe::Env { r13, ep } => probe_env(model, *r13, *ep, rep),
         Probe::Gate { ym, mode, r7, vols } => probe_gate(model, *ym, *mode, *r7, *vols, rep),
         Probe::EnvRetime { shape, ep0, run, ep1 } => probe_env_retime(model, *shape, *ep0, *run, *ep1, rep),
@@ -1509,6 +1561,11 @@ addresses. distinct = generator/mode/shape/segment/gate classes seen by (1), par
     }
     for r6 in [0x20u8, 0xE3, 0xFF, 0x80] {
         run.go(&Probe::Noise { r6 });
+    }
+    for (p1, p2) in [(1u8, 2u8), (3, 31), (16, 17), (31, 30), (0, 5), (7, 9)] {
+        for gap in [1u32, 3, 7, 20, 100] {
+            run.go(&Probe::NoiseSweep { p1, p2, gap });
+        }
     }
     for shape in 0..16u8 {
         for ep in [0u16, 1, 2, 3, 5, 64, 65535] {
